@@ -17,7 +17,7 @@
  *   heap-nocb the same without a record-cookie callback (setreccookie == NULL,
  *            the way tests/heap uses the heap): create, add, deletemin,
  *            increasemin, getmin.
- *   tq       timer queue, times {(0,0),(0,5),(1,0)} (ties; seconds and
+ *   tq       timer queue, times {(0,0),(0,5),(2^31+100,0)} (ties; seconds and
  *            microseconds ordered oppositely), at most N entries; operations
  *            add(t), delete(handle j), increase(handle j, t' > t),
  *            getptr(t) for every t of the domain; getmin in every state.
@@ -93,7 +93,13 @@ static char casebuf[200];
 static uint32_t curop; static const uint8_t * curstate; static size_t curstatelen;
 static char prefix[32];		/* counter prefix */
 
-enum { OP_INIT = 1, OP_CREATE, OP_ADD, OP_DELETEMIN, OP_DELETE, OP_INCREASE, OP_DECREASE, OP_INCREASEMIN, OP_GETPTR };
+enum { OP_INIT = 1, OP_CREATE, OP_ADD, OP_DELETEMIN, OP_DELETE, OP_INCREASE, OP_DECREASE, OP_INCREASEMIN, OP_GETPTR, OP_ADD_OOM };
+/* allocator seam (-Wl,--wrap): while oom is set every allocation requested by the code under test is refused */
+static volatile int oom;
+void * __real_malloc(size_t); void * __real_calloc(size_t, size_t); void * __real_realloc(void *, size_t);
+void * __wrap_malloc(size_t n){ return oom ? NULL : __real_malloc(n); }
+void * __wrap_calloc(size_t a, size_t b){ return oom ? NULL : __real_calloc(a, b); }
+void * __wrap_realloc(void * p, size_t n){ return oom ? NULL : __real_realloc(p, n); }
 #define OPC(k, a, b) (((uint32_t)(k) << 24) | ((uint32_t)(a) << 12) | (uint32_t)(b))
 #define OPK(op) ((op) >> 24)
 #define OPA(op) (((op) >> 12) & 0xfff)
@@ -108,6 +114,7 @@ opname(uint32_t op, char * b, size_t n)
 	case OP_INIT: snprintf(b, n, "init"); break;
 	case OP_CREATE: { size_t o = (size_t)snprintf(b, n, "create["); for (i = 0; i < a; i++) { o += (size_t)snprintf(b + o, n - o, "%s%u", i ? "," : "", x % (unsigned)cur.nkeys); x /= (unsigned)cur.nkeys; } snprintf(b + o, n - o, "]"); break; }
 	case OP_ADD: snprintf(b, n, "add(%u)", a); break;
+	case OP_ADD_OOM: snprintf(b, n, "add(%u) with a dead allocator, then add(%u) again", a, a); break;
 	case OP_DELETEMIN: snprintf(b, n, "deletemin"); break;
 	case OP_DELETE: snprintf(b, n, "delete(handle of slot %u)", a); break;
 	case OP_INCREASE: snprintf(b, n, "increase(slot %u -> key %u)", a, x); break;
@@ -275,6 +282,21 @@ hp_edge(const uint8_t * s, size_t len, uint32_t op)
 	if (replaying) { printf("   before:\n"); hp_print(H); }
 	switch (OPK(op)) {
 	case OP_ADD: { struct el * e = newel((int)a); if (ptrheap_add(H, e)) vf_engine_error("ptrheap_add failed (no allocation failure is injected here)"); break; }
+	case OP_ADD_OOM: {
+		/*
+		 * An add that may need to grow the array while every allocation is
+		 * refused: it either succeeds (no growth needed) or reports -1 and
+		 * leaves the heap as it was; the caller then adds again with a
+		 * healthy allocator.  Either way exactly this element is in the heap
+		 * afterwards and every other handle is still right.
+		 */
+		struct el * e = newel((int)a); int rc; size_t nbefore = verif_ptrheap_n(H);
+		oom = 1; rc = ptrheap_add(H, e); oom = 0;
+		if (rc != 0) {
+			if (verif_ptrheap_n(H) != nbefore) { fail("failed-add", "ptrheap_add reported failure but the heap holds %zu elements instead of %zu", verif_ptrheap_n(H), nbefore); break; }
+			if (ptrheap_add(H, e)) vf_engine_error("ptrheap_add failed with a healthy allocator");
+		}
+		break; }
 	case OP_DELETEMIN: {
 		/* whichever element leaves must be a least one: found by difference */
 		int minkey = 1 << 20, j; size_t k, n;
@@ -301,6 +323,7 @@ hp_succ(struct es * E, const uint8_t * s, size_t len, void * ctx)
 	(void)E; (void)ctx;
 	if (esh_located(&S)) return;
 	if (n < cur.cap) for (k = 0; k < cur.nkeys; k++) ops[nops++] = OPC(OP_ADD, k, 0);
+	if (n < cur.cap) ops[nops++] = OPC(OP_ADD_OOM, 1 % cur.nkeys, 0);
 	if (n) ops[nops++] = OPC(OP_DELETEMIN, 0, 0);
 	if (cur.cb) {
 		for (j = 0; j < n; j++) ops[nops++] = OPC(OP_DELETE, j, 0);
@@ -516,17 +539,17 @@ main(int argc, char ** argv)
 	int N, C;
 	vf_init(&argc, argv, "h_heap");
 	if (vf_replay) return do_replay(vf_replay);
-	N = vf_tier ? 12 : 6; C = vf_tier ? 6 : 4;
+	N = vf_tier ? 14 : 12; C = vf_tier ? 6 : 5;
 	CFGS[NCFG++] = (struct cfg){"heap", N, 3, 1, C};
 	CFGS[NCFG++] = (struct cfg){"heap", N, 3, 0, C};
 	CFGS[NCFG++] = (struct cfg){"tq", N, 3, 1, 0};
 	if (vf_tier) {
-		CFGS[NCFG++] = (struct cfg){"heap", 10, 4, 1, 5};
-		CFGS[NCFG++] = (struct cfg){"tq", 10, 4, 1, 0};
+		CFGS[NCFG++] = (struct cfg){"heap", 11, 4, 1, 5};
+		CFGS[NCFG++] = (struct cfg){"tq", 11, 4, 1, 0};
 	}
 	vf_info("bounds", "heap: keys {0,1,2}, <= %d elements, create from every array of <= %d keys, ops add/deletemin/delete(h)/increase(h)/decrease(h)/increasemin, with and without record-cookie callback; "
-	    "timer queue: times {(0,0),(0,5),(1,0)}, <= %d entries, ops add/delete(h)/increase(h)/getptr(t)/getmin%s; every search to its fixed point",
-	    N, C, N, vf_tier ? "; additionally 4 keys / 4 times {..,(1,5)} with <= 10 elements, create from <= 5 keys" : "");
+	    "timer queue: times {(0,0),(0,5),(2^31+100,0)}, <= %d entries, ops add/delete(h)/increase(h)/getptr(t)/getmin%s; every search to its fixed point",
+	    N, C, N, vf_tier ? "; additionally 4 keys / 4 times with <= 11 elements, create from <= 5 keys" : "");
 	vf_parallel((uint64_t)NCFG, run_search);
 	/* non-vacuity: the searches must have reached full heaps */
 	if (!vf_deadline_hit() && vf_nviolations() == 0 && vf_getcount("crashed_units") == 0) {
